@@ -162,6 +162,10 @@ fn record_panics(a: &ShardArgs, context: &str, input: &[u8], extra: J) -> bool {
     let any = !ps.is_empty();
     for p in ps {
         let loc = norm_location(&p.location);
+        if p.message.starts_with("verif: spin") {
+            out::violation(P, "C01.spin", "endpoint", J::obj(vec![("why", J::s(p.message.clone())), ("context", J::s(context)), ("extra", extra.clone())]), J::obj(vec![("check", J::s("c01")), ("seed", J::U(a.seed)), ("shard", J::U(a.shard)), ("nshards", J::U(a.nshards))]));
+            continue;
+        }
         out::violation(
             P,
             "C01.panic",
@@ -413,8 +417,9 @@ async fn out_scenario(a: &ShardArgs, idx: u64) {
         }
         hist.push(format!("t={} [{state}] {label}", sim.now()));
         out::eval(1);
+        let ex0 = settle_exhausted();
         let rounds = settle().await;
-        if rounds >= 10_000 {
+        if settle_exhausted() > ex0 {
             viol("spin", state, format!("endpoint did not become quiescent after {rounds} scheduler rounds"), &hist);
             break;
         }
